@@ -621,6 +621,13 @@ fn default_writer(
             let mut result = Ok(());
 
             let _ = self.0.props().dedup().for_each(|k, v| {
+                // The built-in keys are reserved for the event's own metadata written above
+                // (the macros reject them); a property using one of them would add a second
+                // member with the same name to the record
+                if let KEY_TS_START | KEY_TS | KEY_MDL | KEY_MSG | KEY_TPL = k.get() {
+                    return ControlFlow::Continue(());
+                }
+
                 match (|| {
                     stream.record_value_begin(None, &sval::Label::new_computed(k.get()))?;
                     stream.value_computed(&v)?;
